@@ -45,6 +45,11 @@ def jobs(tier):
         for L in Ls:
             for extra in ((0, 1) if any("padded" in k for k in kinds) else (0,)):
                 add(kinds, L, extra)
+    # the caller's own bytearray as raw-bytes argument (first write, later write, written twice)
+    for kinds in (("bytearray",), ("bytearray", "short"), ("char", "bytearray"), ("bytearray", "bytearray"), ("bytearray", "short", "bytearray"),
+                  ("bytearray", "string"), ("bytes", "bytearray")):
+        for L in ((0, 2) if q else (0, 1, 2, 3)):
+            add(kinds, L, 0)
     # size thresholds: long strings of every string kind (all characters symbolic), followed by another field
     for L in ((66, 130) if q else (33, 66, 130, 260)):
         for k in ("string", "encoded_string", "fixed_string", "fixed_encoded_string"):
